@@ -10,13 +10,16 @@ import (
 	"encoding/hex"
 	"expvar"
 	"fmt"
+	"os"
 	"sort"
 	"strings"
+	"time"
 
 	"github.com/google/mtail/internal/logline"
 	"github.com/google/mtail/internal/metrics"
 	"github.com/google/mtail/internal/runtime"
 	"github.com/google/mtail/internal/zverif/shared/mt"
+	"github.com/google/mtail/internal/zverif/vlib"
 	"github.com/google/mtail/internal/zverif/vrt"
 	"github.com/google/mtail/internal/zverif/vrt/vsync"
 )
@@ -131,3 +134,19 @@ func MapVal(m *expvar.Map, key string) int64 {
 	}
 	return 0
 }
+
+// StateDump renders the complete object graph of the Runtime (handles, VMs,
+// compiled programs, store, metrics, data; unexported fields included;
+// wall-clock stamps masked) for use in state keys, so that implementation
+// state no harness knows about still separates two histories.
+func (r *RT) StateDump() string {
+	now := time.Now().UnixNano()
+	txt := vlib.DeepDumpMask(r.R, startNano-int64(time.Hour), now+int64(time.Hour))
+	if f := os.Getenv("VERIF_DUMP_STATE"); f != "" {
+		_ = os.WriteFile(f, []byte(txt), 0o644)
+	}
+	h := sha256.Sum256([]byte(txt))
+	return hex.EncodeToString(h[:12])
+}
+
+var startNano = time.Now().UnixNano()
